@@ -42,6 +42,14 @@ def float_rem_z3(a, b, bits):
     return z3.If(z3.Not(z3.fpIsZero(mod)), adjusted, signed_zero)
 
 
+def _cases(a, b, bits):
+    srt = z3.Float64() if bits == 64 else z3.Float32()
+    mod = z3.Function("fmod%d" % bits, srt, srt, srt)(a, b)
+    zero = z3.FPVal(0.0, srt)
+    differs = z3.fpLT(b, zero) != z3.fpLT(mod, zero)
+    return [z3.fpIsZero(mod), z3.And(z3.Not(z3.fpIsZero(mod)), differs), z3.And(z3.Not(z3.fpIsZero(mod)), z3.Not(differs))]
+
+
 def float_rem_native(a, b):
     mod = math.fmod(a, b)
     if mod:
@@ -64,8 +72,11 @@ def units(tier):
                   requires=[("a, b finite, b != 0 (a zero divisor raises ZeroDivisionError before the helper is called)",
                              lambda e: And(_finite(e.a), _finite(e.b), Not(z3.fpIsZero(e.b)))),
                             ("b_is_constant is 0/1", lambda e: Or(e.b_is_constant == 0, e.b_is_constant == 1))],
-                  ensures=[("result is bit-identical (up to NaN payload) to CPython's float_rem(a, b)",
-                            (lambda bits: lambda e: e.result == float_rem_z3(e.a, e.b, bits))(bits))],
+                  # one postcondition, stated as three exhaustive cases on fmod's result (zero / sign differs from b's / same sign):
+                  # the single equality took z3 40 s (and went `unknown` on a loaded machine), the cases take 4 s together
+                  ensures=[("result is bit-identical (up to NaN payload) to CPython's float_rem(a, b) [%s]" % label,
+                            (lambda bits, k: lambda e: Implies(_cases(e.a, e.b, bits)[k], e.result == float_rem_z3(e.a, e.b, bits)))(bits, k))
+                           for k, label in enumerate(("fmod is zero", "fmod's sign differs from the divisor's", "fmod has the divisor's sign"))],
                   subject={"file": "Cython/Utility/CMath.c", "template": "ModFloat", "instantiation": tname})
         u.concrete_search = (lambda bits, u=u: lambda ob, regions=(): _search(u, bits))(bits)
         u.replay = (lambda bits, u=u: lambda model, ob=None: _search(u, bits, model))(bits)
